@@ -380,8 +380,17 @@ def check(case):
     suite = iana.SUITES[sid]
     salt = case.get("salt", 0)
     labels = ["B", "ver=" + vclass(v), "kind=" + suite.kind, "t=" + case["t"]]
+    pin_kw = {}
+    if case.get("hrr") and v == (3, 4):
+        # the handshake goes through a HelloRetryRequest (the client's
+        # compatibility CCS then precedes its second ClientHello)
+        pin_kw = {"c_extra": {"keyShares": ["x25519"],
+                              "eccCurves": ["x25519", "secp256r1"]},
+                  "s_extra": {"eccCurves": ["secp256r1", "secp384r1"],
+                              "keyShares": ["secp256r1"]}}
+        labels.append("hrr")
     DET.reseed("C02", sid, v, etm, salt)
-    copts, sopts = sc.pin(suite, v, etm=etm)
+    copts, sopts = sc.pin(suite, v, etm=etm, **pin_kw)
     p = sc.connect(copts, sopts)
     if not p.both_ok:
         raise BaselineBroken("pinned-handshake:%04x:%s" % (sid, sc.VERNAME[v]), "%r %r" % (p.co, p.so))
@@ -404,7 +413,7 @@ def check(case):
         sc.read_all(p, side)
     if case["t"] == "foreign":
         DET.reseed("C02-foreign", sid, v, etm, salt)
-        c2, s2 = sc.pin(suite, v, etm=etm)
+        c2, s2 = sc.pin(suite, v, etm=etm, **pin_kw)
         q = sc.connect(c2, s2)
         fr, _ = honest_records(q, side, [["d", 20]], salt + 1)
         ctx["foreign"] = fr[-1]
@@ -433,7 +442,7 @@ def check(case):
     exp_prefix = None
     if k > 0:
         DET.reseed("C02", sid, v, etm, salt)
-        c2, s2 = sc.pin(suite, v, etm=etm)
+        c2, s2 = sc.pin(suite, v, etm=etm, **pin_kw)
         q = sc.connect(c2, s2)
         if case["t"] == "reflect":
             q.link.hold[dst] = True
@@ -759,6 +768,8 @@ def caseB(draw, tier):
          "dir": draw(st.sampled_from(["c", "s"])),
          "items": [list(x) for x in items], "t": t,
          "i": draw(st.integers(0, 3)), "salt": draw(st.integers(0, 3))}
+    if tuple(v) == (3, 4) and draw(st.integers(0, 3)) == 0:
+        c["hrr"] = True
     if t == "flip":
         c["pos"] = draw(st.sampled_from(POS))
         c["mask"] = draw(st.sampled_from([1, 2, 0x40, 0x80, 0xff]))
@@ -880,6 +891,7 @@ def explicit(tier, seed):
                          "salt": seed % 4}
                     c.update(f)
                     yield c
+                    yield dict(c, hrr=True)
         if iana.SUITES[sid].draft:
             continue
         if iana.SUITES[sid].kind == "cbc" and v < (3, 4):
